@@ -373,11 +373,30 @@ func main() {
 			continue
 		}
 		code := runReplay(w, tmp, id, final, nil)
+		carried := false
+		if code == 0 && !v.hb {
+			// the run alone is clean: repeat it after the runs its worker had executed before it in the same process. Every
+			// run builds its routers afresh, so only memory the system under test keeps per process can carry over.
+			if b, err := os.ReadFile(final); err == nil {
+				var m map[string]any
+				if json.Unmarshal(b, &m) == nil {
+					m["carry"] = true
+					if nb, err := json.MarshalIndent(m, "", " "); err == nil && os.WriteFile(final, nb, 0o644) == nil {
+						if code = runReplay(w, tmp, id, final, nil); code == 1 {
+							carried = true
+						}
+					}
+				}
+			}
+		}
 		if code == 1 {
 			confirmed++
 			exit = 1
 			lines = append(lines, fmt.Sprintf("VIOLATION property=%s replay=%s", id, final))
 			lines = append(lines, fmt.Sprintf("  class=%s run=%d choices=%d (shrunk from %d): %s", v.Class, v.Run, v.Shrunk, v.From, oneLine(v.Detail)))
+			if carried {
+				lines = append(lines, "  (occurs only after the preceding runs of the same process: the system under test carries state across Router instances in process-global memory; the replay file re-executes those runs first)")
+			}
 		} else {
 			trouble = append(trouble, fmt.Sprintf("violation %s (run %d) did not replay (exit %d): harness determinism bug, not reported as a verdict; file %s", v.Class, v.Run, code, final))
 		}
